@@ -428,7 +428,7 @@ namespace via
     /// CRLF pair, which could cause HTTP message spliting.
     inline bool are_headers_split(std::string_view headers) noexcept
     {
-      char prev('0');
+      char prev('\n'); // the headers follow the LF of the start line
       char pprev('0');
 
       if (!headers.empty())
